@@ -43,6 +43,9 @@ def _m1():
     cfg = mastercfg.m1()
     cfg['cellmonitors'] = [cellmon.mon_c01]
     cfg['monitors'] = [mastermon.mon_c01_zk]
+    # non-initial start states: a populated cell
+    cfg['seeds'] = [(), (('app+', 'id', True), ('app+', 'id', True),
+                         ('app+', 'hi', True))]
     cfg['events'] = mastercfg.ev(
         ('app+', 'sm'), ('app+', 'id'), ('app+', 'hi'), ('app+', 'on'),
         ('app-', 0), ('prio', 0, 100),
